@@ -37,6 +37,8 @@
  *   crdlist   (child) call_rcu_data_list holds exactly the new default helper; default pointer set,
  *             per-CPU array and per-thread pointer reset; every inherited call_rcu_data freed once;
  *   join      (child) pthread_join() on a thread that does not exist in the child;
+ *   sigmask   (bp) after urcu_bp_after_fork_parent() / _child() the calling thread runs with the signal mask it had
+ *             before urcu_bp_before_fork(), also when another thread with a different mask enters the handler meanwhile;
  *   quiescent (parent, at the fork) every helper in call_rcu_data_list has PAUSED set;
  *   gp / head as in the C03 scenario; DEADLOCK (exit 4) / BUDGET (exit 5) from the runtime, in
  *   either process; a failing child makes the parent fail (vrt_wait_child).
@@ -72,12 +74,53 @@ static int scn_pthread_join(pthread_t t, void **ret);
 #define HAVE_SCHED_SETAFFINITY 1
 
 #ifdef FORK_BP
+static int generation_of(void);
+/* Per-thread signal masks are simulated in the scenario (real sigset_t values flow through the
+ * library's oldmask / saved_fork_signal_mask variables; the process' real mask is left alone). */
+static sigset_t simmask[VRT_MAXT];
+static unsigned long mask_bits(const sigset_t *s)
+{
+	unsigned long b = 0;
+	int i;
+	for (i = 1; i < 64; i++)
+		if (sigismember(s, i) == 1)
+			b |= 1UL << i;
+	return b;
+}
 static int bp_sigmask(int how, const sigset_t *set, sigset_t *old)
 {
-	(void)set; (void)old;
+	int me = vrt_self();
+	sigset_t prev = simmask[me];
+	if (set) {
+		if (how == SIG_BLOCK)
+			sigorset(&simmask[me], &prev, set);
+		else if (how == SIG_SETMASK)
+			simmask[me] = *set;
+	}
+	if (old)
+		*old = prev;
 	vrt_sig_block(how == SIG_BLOCK);
-	vrt_log(how == SIG_BLOCK ? "SIGMASK block" : "SIGMASK restore");
+	if (how == SIG_BLOCK)
+		vrt_log("SIGMASK block m=%lx", mask_bits(&prev));
+	else
+		vrt_log("SIGMASK restore m=%lx", mask_bits(&simmask[me]));
 	return 0;
+}
+/* the application's own pthread_sigmask(): threads run with different masks */
+static void app_set_mask(int a, int b)
+{
+	int me = vrt_self();
+	sigemptyset(&simmask[me]);
+	if (a) sigaddset(&simmask[me], a);
+	if (b) sigaddset(&simmask[me], b);
+	vrt_log("MASK m=%lx", mask_bits(&simmask[me]));
+}
+static void mask_oracle(const char *when, const sigset_t *before)
+{
+	int me = vrt_self();
+	if (mask_bits(before) != mask_bits(&simmask[me]))
+		vrt_fail("sigmask", "generation %d: after %s thread T%d runs with signal mask %#lx, it had %#lx before urcu_bp_before_fork()",
+			 generation_of(), when, me, mask_bits(&simmask[me]), mask_bits(before));
 }
 #define pthread_sigmask(how, set, old) bp_sigmask(how, set, old)
 /* reader slots live in the library's arena and are reused: (re)name the calling thread's slot
@@ -137,7 +180,9 @@ static int depth[VRT_MAXT];
 static int nworkers = 2, wops = 14, pre = 10, burst = 4, delay = -1, regfork = 1, fdepth, rtpct = 30, chainpct = 25,
 	   maxchain = 2, percpu_n = 1, own_helper = 1, post = 6;
 static volatile int quiet, resume_flag, workers_out;
-static int online_fork, freerace, nreaders_child = 3;
+static int online_fork, freerace, nreaders_child = 3, twofork = 1;
+static volatile int a_in_window, b_entered;
+static int forker2_tid;
 static volatile int freerace_go, freerace_started;
 static struct call_rcu_data *worker_helpers[MAXW * 4];
 static int nworker_helpers;
@@ -154,6 +199,9 @@ static void qs(void)
 #endif
 }
 static int generation;			/* 0 = original process, k = k-th level child */
+#ifdef FORK_BP
+static int generation_of(void) { return generation; }
+#endif
 static int fork_nthreads;		/* child: threads with tid < this (except the forking one) do not exist */
 static int forker_tid;
 
@@ -570,6 +618,9 @@ static void *worker(void *arg)
 	struct call_rcu_data *myh = NULL;
 	name_my_reader();
 	vrt_log("WORKER %d", w);
+#ifdef FORK_BP
+	if (w % 2) app_set_mask(SIGUSR2, 0);
+#endif
 	set_my_cpu(rnd_cpu());
 	do_register();
 	for (i = 0; i < wops; i++)
@@ -622,9 +673,43 @@ static void *freeracer(void *arg)
 	return NULL;
 }
 
+#ifdef FORK_BP
+/* bp, --twofork: a second application thread, running with a different signal mask, enters
+ * urcu_bp_before_fork() while the first one is between its before_fork and after_fork_parent (it
+ * blocks on rcu_gp_lock until then).  It uses only the bp handlers (no call_rcu in that thread); what
+ * its fork() would create is an immediately exec()ing child: nothing of it is observed. */
+static void *forker2(void *arg)
+{
+	sigset_t before;
+	(void)arg;
+	name_my_reader();
+	vrt_log("FORKER2");
+	app_set_mask(SIGUSR1, SIGTERM);
+	do_register();
+	while (!a_in_window)
+		vrt_sleep(3);
+	before = simmask[vrt_self()];
+	b_entered = 1;
+	vrt_log("CALL bp_before_fork");
+	urcu_bp_before_fork();
+	vrt_log("RET bp_before_fork");
+	vrt_log("FORK_EXEC");
+	vrt_log("CALL bp_after_fork_parent");
+	urcu_bp_after_fork_parent();
+	vrt_log("RET bp_after_fork_parent");
+	mask_oracle("urcu_bp_after_fork_parent() of the second forking thread", &before);
+	do_lock();
+	do_unlock();
+	return NULL;
+}
+#endif
+
 /* ---- the fork ------------------------------------------------------------------------------------ */
 static int sync_fd[2];
 static int racer_tid;
+#ifdef FORK_BP
+static sigset_t fork_mask_before;
+#endif
 static int registered0;		/* the forking thread is registered as a reader (explicitly; bp: has a slot) */
 static struct call_rcu_data *myh0;
 static int have_percpu;
@@ -696,6 +781,9 @@ static void do_fork(void)
 	struct call_rcu_data *crdp;
 	int i, pid, nq = 0, nthreads_at_fork;
 	int went_offline = 0;
+#ifdef FORK_BP
+	sigset_t mask_before = simmask[vrt_self()];
+#endif
 	if (depth[vrt_self()] > 0)
 		abort();	/* scenario bug: the handlers are called outside read-side sections */
 #ifdef FORK_QSBR
@@ -720,6 +808,13 @@ static void do_fork(void)
 	vrt_log("CALL bp_before_fork");
 	urcu_bp_before_fork();
 	vrt_log("RET bp_before_fork");
+	if (twofork && generation == 0 && forker2_tid) {
+		/* let the second forking thread enter urcu_bp_before_fork() now */
+		a_in_window = 1;
+		while (!b_entered)
+			vrt_sleep(2);
+	}
+	fork_mask_before = mask_before;
 #endif
 	/* quiescent oracle: every helper parked */
 	cds_list_for_each_entry(crdp, &call_rcu_data_list, list)
@@ -766,6 +861,7 @@ static void do_fork(void)
 	vrt_log("CALL bp_after_fork_parent");
 	urcu_bp_after_fork_parent();
 	vrt_log("RET bp_after_fork_parent");
+	mask_oracle("urcu_bp_after_fork_parent()", &mask_before);
 #endif
 	vrt_log("CALL after_fork_parent");
 	call_rcu_after_fork_parent();
@@ -861,6 +957,7 @@ static void child_main(void)
 	vrt_log("CALL bp_after_fork_child");
 	urcu_bp_after_fork_child();
 	vrt_log("RET bp_after_fork_child");
+	mask_oracle("urcu_bp_after_fork_child()", &fork_mask_before);
 #endif
 	registry_oracle();
 	vrt_log("CALL after_fork_child");
@@ -1017,6 +1114,7 @@ int main(int argc, char **argv)
 		else if (!strcmp(argv[i], "--online") && i + 1 < argc) online_fork = atoi(argv[++i]);
 		else if (!strcmp(argv[i], "--freerace") && i + 1 < argc) freerace = atoi(argv[++i]);
 		else if (!strcmp(argv[i], "--creaders") && i + 1 < argc) nreaders_child = atoi(argv[++i]);
+		else if (!strcmp(argv[i], "--twofork") && i + 1 < argc) twofork = atoi(argv[++i]);
 	}
 	if (nworkers > MAXW) nworkers = MAXW;
 	if (nworkers < 0) nworkers = 0;
@@ -1041,6 +1139,11 @@ int main(int argc, char **argv)
 	vrt_raw("CFG flavor=%s membarrier=%d ncpus=%d workers=%d regfork=%d depth=%d", FLAVOR, HAS_MEMB, vrt_cfg_ncpus, nworkers, regfork, fdepth);
 	for (i = 0; i < nworkers; i++)
 		wt[i] = vrt_spawn("worker", worker, (void *)(long)(i + 1));
+#ifdef FORK_BP
+	app_set_mask(SIGHUP, 0);
+	if (twofork)
+		forker2_tid = vrt_spawn("forker2", forker2, NULL);
+#endif
 	set_my_cpu(rnd_cpu());
 	do_register();
 	registered0 = 1;
@@ -1129,6 +1232,10 @@ int main(int argc, char **argv)
 		vrt_join(wt[i]);
 	if (freerace)
 		vrt_join(racer_tid);
+#ifdef FORK_BP
+	if (forker2_tid)
+		vrt_join(forker2_tid);
+#endif
 #ifdef FORK_QSBR
 	rcu_thread_online();
 #endif
